@@ -278,6 +278,47 @@ Section Loader.
             l_footers := snd sc |}
     end.
 
+  (* the same loader on a file whose last line is NOT newline-terminated (a truncated file): the only
+     difference is that the raw last line then carries no newline on its final token *)
+  Definition num_events_of_nonl (last : line) : result Z :=
+    if (nth 0 last "" =? "#") && mem_str "event" last then
+      match nth_error last 2 with
+      | None => Err IndexError
+      | Some t => match tok_int t with Some v => Ok (to_Z v + 1)%Z | None => Err ValueError end
+      end
+    else Err TypeError.
+
+  Definition load_nonl (file : list line) (sel : selector) : result loaded :=
+    match file with
+    | [] => Err OtherError
+    | [_] => Err OtherError                       (* no newline in the file at all: the backward seek fails *)
+    | first :: _ =>
+      fa <- oscar_format first ;;
+      let fmt := fst fa in let attrs := snd fa in
+      _ <- (if (fmt =? "Oscar2013Extended_IC") || (fmt =? "Oscar2013Extended_Photons") then Err OtherError else Ok tt) ;;
+      nev <- num_events_of_nonl (last file []) ;;
+      sc <- scan file ;;
+      let cnts := fst sc in
+      ns <- num_skip sel cnts ;;
+      nr <- num_read sel cnts ;;
+      let body := skipn (Z.to_nat ns) file in
+      first_ok <- match body, Z.to_nat nr with
+                  | l0 :: _, S _ => if negb (has "#" l0) && negb (has "out" l0) then Err ValueError else Ok tt
+                  | _, _ => Ok tt
+                  end ;;
+      st <- read_loop fmt attrs (Z.to_nat nr) body {| plist := []; data := []; counts := cnts; cut := 0 |} ;;
+      let nev' := (nev - cut st)%Z in
+      fin <- match sel with
+             | SelAll => if (Z.of_nat (List.length (plist st)) =? nev')%Z then Ok (nev', counts st) else Err IndexError
+             | SelOne k => match nth_error (counts st) (Z.to_nat k) with
+                           | Some c => Ok (1%Z, [c]) | None => Err IndexError end
+             | SelRange a b => Ok ((b - a + 1)%Z, slice (Z.to_nat a) (Z.to_nat (b - a + 1)) (counts st))
+             end ;;
+      Ok {| l_events := match plist st with [] => [[]] | pl => pl end;
+            l_nevents := fst fin; l_counts := snd fin; l_format := fmt; l_attrs := attrs;
+            l_footers := snd sc |}
+    end.
+
   (* Oscar.impact_parameters(): float(filter(None, footer.split(" "))[-3]), re-indexed by the labels *)
   Definition impact_of (footer : line) : result Q :=
     let ne := filter (fun s => negb (s =? "")) footer in
@@ -328,6 +369,23 @@ Definition check_oscar (tf ti : string -> option Q) (pv : Q -> bool) (file : lis
     else if negb (list_eqb zz_eqb (l_counts ld) c) then 5
     else if negb (l_format ld =? f)%string then 6
     else if negb (list_eqb String.eqb (l_attrs ld) a) then 7
+    else if negb (list_eqb Qeq_bool imps im) then 8
+    else 0
+  | Ok _, ObsErr _ => 9
+  | Err _, ObsOk _ _ _ _ _ _ => 10
+  end%nat.
+
+(* C07: file possibly without final newline; Err classes are compared loosely (any error = detected) *)
+Definition check_damaged (tf ti : string -> option Q) (pv : Q -> bool) (nl : bool) (file : list line)
+           (obs : observed) : nat :=
+  let ldr := if nl then load tf ti pv None file SelAll else load_nonl tf ti pv None file SelAll in
+  let r := ld <- ldr ;; imps <- impact_parameters tf ld ;; Ok (ld, imps) in
+  match r, obs with
+  | Err e, ObsErr e' => if err_eqb e e' then 0 else 1
+  | Ok (ld, imps), ObsOk ev n c f a im =>
+    if negb (list_eqb (list_eqb (list_eqb oq_eqb)) (l_events ld) ev) then 3
+    else if negb (l_nevents ld =? n)%Z then 4
+    else if negb (list_eqb zz_eqb (l_counts ld) c) then 5
     else if negb (list_eqb Qeq_bool imps im) then 8
     else 0
   | Ok _, ObsErr _ => 9
